@@ -749,6 +749,8 @@ funcexpr(struct func *f, struct expr *e)
 			return NULL;  /* unreachable */
 		}
 		v = funcinst(f, e->op == TINC ? IADD : ISUB, qbetype(t).base, l, r);
+		if (t->kind == TYPEBOOL)
+			v = convert(f, t, &typeint, v);
 		v = funcstore(f, e->type, e->qual, lval, v);
 		return e->u.incdec.post ? l : v;
 	case EXPRCALL:
